@@ -134,6 +134,10 @@ func (b *PathBuilder) buildSelector(buf []rune) (int, error) {
 			}
 			return cursor + 1 + offset, nil
 		case '"':
+			if cursor > 0 {
+				// text in front of the quote would be dropped: a quoted name starts right after the dot
+				return 0, errors.ErrInvalidPath("found double quote character in field selector context")
+			}
 			if cursor+1 >= len(buf) {
 				return 0, errors.ErrInvalidPath("JSON Path ends with double quote character")
 			}
